@@ -34,3 +34,17 @@ Definition is_keyword (kws : list string) (s : string) : bool := in_strs s kws.
 Fixpoint has_char (p : ascii -> bool) (s : string) : bool :=
   match s with EmptyString => false | String c r => p c || has_char p r end.
 Definition is_upper (c : ascii) : bool := Nat.leb 65 (nat_of_ascii c) && Nat.leb (nat_of_ascii c) 90.
+
+(* the statements wrapBranch appends to a rule body, in order: (variable bound, variables of this list it reads).
+   The trace(...) / object.get(...) right-hand sides read only variables of the constraint snippets and the rule head. *)
+Definition tail_stmts (k m : nat) (head : string) : list (string * list string) :=
+  map (fun i => (result_var i, [])) (seq 0 k)
+  ++ map (fun i => (msg_var i, [])) (seq 0 m)
+  ++ (if Nat.eqb m 0 then [] else [("message_vars", map msg_var (seq 0 m))])
+  ++ [("message", if Nat.eqb m 0 then [] else ["message_vars"]); (head, "message" :: map result_var (seq 0 k))].
+(* safety in the engine's sense, for these statements: every variable read has been bound by an earlier statement *)
+Fixpoint safe_from (env : list string) (l : list (string * list string)) : bool :=
+  match l with
+  | [] => true
+  | (d, us) :: r => forallb (fun u => in_strs u env) us && safe_from (d :: env) r
+  end.
